@@ -620,6 +620,49 @@ def seen_only_when_shown(ctx, rid):
 
 
 # ------------------------------------------------------------------------------------------------
+# R18.9  a record that follows a partial line is still a record (F-S)
+
+def record_after_partial_line(ctx, rid):
+    ctx.rule(rid, "redo-log's follower recognises a structured record wherever it starts in an assembled line: the text handed to Meta::parse is not the plain concatenation `pending partial line + next line` (a record written right after a script's unterminated output would then be taken for text and the nested target never followed)")
+    prog = ctx.prog
+    C = prog.one(r"@bin::log::LogState::catlog")
+    ba = BA.of(C)
+    parse = ba.calls(r"logs::Meta::parse")
+    ew = ba.switches_on_call(r"core::str::<impl str>::ends_with")
+    if not parse or not ew:
+        raise AnchorError("Meta::parse / ends_with not found in %s" % C.key)
+    # the pending-head buffer: a String (other than the read buffer itself) onto which text from the read buffer is appended
+    reads = ba.calls(r".*::read_line")
+    bufs = set()
+    for r_ in reads:
+        a = C.blocks[r_]["term"]["args"]
+        if len(a) > 1 and op_local(a[1]) is not None:
+            bufs.add(ba.base_local_of_ref(op_local(a[1])))
+    lt = taint(C, seeds=bufs, mode="direct")
+    heads = set()
+    for i in ba.calls(r"alloc::string::String::push_str"):
+        a = C.blocks[i]["term"]["args"]
+        src = op_local(a[1]) if len(a) > 1 else None
+        if src is None or not (src in lt or any(x in lt for x in ba.ref_chain(src))):
+            continue
+        base = ba.base_local_of_ref(op_local(a[0]))
+        if base not in lt:
+            heads.add(base)
+    if not ctx.floor(rid, "pending partial-line buffers", len(heads), 1):
+        return
+    tnt = taint(C, seeds=heads, mode="derived")
+    searches = [i for i in ba.all_calls() if any(re.fullmatch(r"core::str::<impl str>::(find|rfind|split_once|rsplit_once|match_indices|contains)", p) for p in callee_paths(C.blocks[i]["term"]))
+                and any((op_const(a) or {}).get("named", "").endswith("PREFIX") or (op_const(a) or {}).get("str", "").startswith("@@REDO") for a in C.blocks[i]["term"]["args"][1:])]
+    for k, pc in common.ordinal_keys([("parse", x) for x in parse]):
+        a0 = op_local(C.blocks[pc]["term"]["args"][0])
+        dirty = a0 in tnt or any(x in tnt for x in ba.ref_chain(a0))
+        ok = (not dirty) or any(ba.dominates(sx, pc) for sx in searches)
+        ctx.ob(rid, "%s|%s|record-start-searched-in-assembled-line" % (C.key, k), ok, where=ctx.where(C, pc),
+               detail="the parser input is searched for a record start (or never contains a pending head)" if ok else
+               "the pending partial line is glued in front of the next line and the result parsed as a whole: `partial text@@REDO:do:...` is not a record, the nested target's log is not followed and its lines are lost from the live view and the replay")
+
+
+# ------------------------------------------------------------------------------------------------
 # rules that are necessary conditions of several properties are evaluated once, in the table they were written
 # for, and reported under every property they matter to
 
@@ -680,7 +723,7 @@ TABLE = {
     "C14": [("R14.6", borrow("C02", "R2.3", r"marked-edges-still-listed", "an ifcreate / always edge of an interrupted rebuild must still make the target dirty"))],
     "C09": [("R9.8", borrow("C12", "R12.2", None, "a lock id that is not registered turns a cycle into an endless fcntl wait"))],
     "C17": [("R17.6", ood_lists_every_nonclean), ("R17.7", check_never_refreshes_stamps)],
-    "C18": [("R18.7", done_status_type_agrees), ("R18.8", seen_only_when_shown)],
+    "C18": [("R18.7", done_status_type_agrees), ("R18.8", seen_only_when_shown), ("R18.9", record_after_partial_line)],
     "C10": [("R10.8", rename_inside_result_transaction), ("R10.10", interrupted_creation_is_recoverable),
             ("R10.9", borrow("C05", "R5.3", None, "a job that dies (non-zero or by signal) has its un-redeclared edges deleted by zap_deps2, so it must be marked failed in the same transaction or it looks clean after the kill"))],
     "C12": [("R12.9", every_modified_dep_is_descended)],
